@@ -248,7 +248,15 @@ func (s *ASpec) build() (*core.Spec, error) {
 		if a.Native {
 			return a.P.Native(a.ExeOnError), nil
 		}
-		return nil, &core.ActionSource{Interpreter: "ecmascript", Source: a.P.JS()}
+		src := &core.ActionSource{Interpreter: "ecmascript", Source: a.P.JS()}
+		if buildCount%3 == 2 {
+			// a declaration of what the code binds (documentation for tools: it changes nothing about the execution)
+			src.Binds = []match.Bindings{}
+			if buildCount%2 == 0 {
+				src.Binds = []match.Bindings{{"?x": "a value"}}
+			}
+		}
+		return nil, src
 	}
 	var given []interface{}
 	jsonSyntax, npat := !s.SkipCompile && buildCount%5 == 1, 0
@@ -451,6 +459,12 @@ func (g *G) astate(s *ASpec) *AState {
 					st.Bs[g.pick(permKeys)] = []interface{}{map[string]interface{}{"q": g.num()}, g.scalar()}
 				} else {
 					st.Bs[g.pick(permKeys)] = g.smallJSON()
+				}
+			}
+			if g.chance(0.1) {
+				// a machine configured with many permanent bindings
+				for k := 6 + g.intn(6); k > 0; k-- {
+					st.Bs[fmt.Sprintf("p%d!", k)] = g.scalar()
 				}
 			}
 		}
